@@ -64,8 +64,9 @@ def run_action_open(cfg: OpenActionConfig) -> int:
             and not _is_prefix_symbol(word)
             and not _is_priority(word)
             and not zdt.is_short_date_spec(word)
-            and not zdt.is_zid(word)
         ):
+            # The first word after the prefix is either the note's primary ZID
+            # or ordinary text; every ZID after it is a reference.
             found_primary_zid = True
 
     # If the provided line is a zorg query...
